@@ -109,6 +109,22 @@ class Ctx:
             self.samples.append({'workload': self.cur[0], 'index': self.cur[1], 'class': list(sig),
                                  'case': jsonable(sample)})
 
+    def case_bulk(self, sig, n, nontrivial=True):
+        """Register n explored cases of one class at once (tight enumeration loops)."""
+        sig = tuple(str(s) for s in sig)
+        self.evals += n
+        self.sigs[sig] += n
+        if nontrivial and n:
+            self.nontrivial.add(sig)
+        for lab in sig:
+            self.classes[lab] += n
+
+    def count_n(self, mon, n, in_situ=False):
+        m = self._m(mon)
+        m['checks'] += n
+        if in_situ:
+            m['in_situ'] += n
+
     def event(self, name, n=1):
         self.events[name] += n
 
